@@ -505,6 +505,14 @@ func TestC14(t *testing.T) {
 				p, f := drawTarget(rt)
 				fail(w.sign("report", drawSigner(rt, nil), p.Bech, f))
 			},
+			// a provider authorises a claim address (for reward claims); that confers nothing on forms: the claimer is not
+			// the named provider
+			"addClaimer": func(rt *rapid.T) {
+				p := w.everyone[rapid.IntRange(0, len(w.everyone)-1).Draw(rt, "provider")]
+				cl := w.everyone[rapid.IntRange(0, len(w.everyone)-1).Draw(rt, "claimer")]
+				r := w.f.Exec(&storagetypes.MsgAddClaimer{Creator: p.Bech, ClaimAddress: cl.Bech})
+				w.logf("%s authorises claimer %s -> %s", short(p.Bech), short(cl.Bech), r)
+			},
 			"advance": func(rt *rapid.T) {
 				for i := rapid.IntRange(1, 3).Draw(rt, "blocks"); i > 0; i-- {
 					sig, msg := w.nextBlock(6*time.Second, 0)
